@@ -1134,7 +1134,7 @@ def c04(tier, seed):
         if tier == "quick" and start is not None and repr_ not in ("i8",):
             continue
         vs = []
-        nvar = 140 if repr_ == "i8" else (56 if repr_ == "u8" else 130)      # i8: -128..=11 ; u8: 200..=255 : the counted offset
+        nvar = 140 if repr_ == "i8" else (56 if repr_ == "u8" else (60 if repr_ == "i16" else 130))      # (130 PartialOrd-only variants with the operator assertions: 20 min in CBMC)      # i8: -128..=11 ; u8: 200..=255 : the counted offset
         for i in range(nvar):                                                 # exceeds what the repr type can hold as a literal
             d = start if i == 0 else None
             if i in (0, nvar - 1):
